@@ -76,7 +76,8 @@ META = {
    level="Proved for all alignments, categories and combined parameter sets: the result is the weighted mean (or the two from-code corner "
          "values) of the fold whose terms are exactly the statement's: weight 1/(k-1)*max(0, 1-alpha*positional) for real pairs, delta_empty "
          "at weight delta_empty for unit/empty pairs, category filter on either unit; never negative; division safe; TypeError otherwise.",
-   note="Bounded only: GammaResults.gamma_cat / gamma_k. Known finding: gamma_k of an absent category (see known_findings.json)."),
+   note="GammaResults.gamma_cat / gamma_k (thread pool): 8 syntactic data-flow obligations + bounded runs. Known finding: gamma_k of an "
+        "absent category (see known_findings.json)."),
  "C06": dict(
    technique="frame / effect contracts checked by a modular effect analysis over the real ASTs (RNG consumption, hash-order iteration, "
              "writes through parameters / non-fresh objects propagated over a conservative call graph); schedules are not enumerated",
@@ -93,10 +94,12 @@ META = {
    note="Assumed: deepcopy / sortedcontainers models; name-based call graph."),
  "C05": dict(
    technique="contract-based deductive verification of GammaResults (observed / expected disorder, gamma) and of the job functions handed "
-             "to the thread pool, on top of the proved best / soft alignment contracts; compute_gamma's batching by a bounded stand-in",
+             "to the thread pool, on top of the proved best / soft alignment contracts; compute_gamma's plumbing (no executor model) as data-flow obligations "
+             "of its AST plus a bounded stand-in",
    level="Proved: gamma == 1 if observed == 0 else 1 - observed/mean(chance disorders) (ZeroDivisionError iff the mean is 0 and observed is "
          "not), <= 1 for non-negative observed and positive mean; expected == mean over exactly the held chance alignments; each job is the "
-         "requested kind of alignment of the continuum it is given. Bounded (labelled): number and freshness of the samples.",
+         "requested kind of alignment of the continuum it is given. Syntactic (12 obligations): which job runs on what, one fresh sample per "
+         "job, batch sizes, results read once in order, what reaches GammaResults. Bounded (labelled): the same facts at run time.",
    note="Assumed: solver model (through the alignment contracts), np.mean."),
  "C09": dict(
    technique="lemmas over the contracts already proved on the real kernels: positional formula invariant under t -> k*t + c (non-linear reals), "
